@@ -126,9 +126,79 @@ def pick(rng, n, thorough):
 def rule_term(x, w):
     return tup(qlist(x), qlist(w))
 
+class BadOutput(Exception):
+    pass
+
+
+def _finite_ok(o):
+    """(kind, detail) if an implementation output is unusable, else None"""
+    if isinstance(o, (tuple, list)):
+        for v in o:
+            r = _finite_ok(v)
+            if r:
+                return r
+        return None
+    a = np.asarray(o)
+    if a.dtype == object or not (np.issubdtype(a.dtype, np.floating) or np.issubdtype(a.dtype, np.integer)):
+        return ("bad_shape", "output of dtype %s" % a.dtype)
+    if not np.isfinite(a).all():
+        return ("nonfinite_output", "%d non-finite entries (nan/inf)" % int((~np.isfinite(a)).sum()))
+    return None
+
+
+class Guard:
+    """proxy of quantecon.quad: every call is recorded (so that any later problem can be attributed to a concrete call) and its
+    output validated before the harness converts it to exact rationals: non-finite values / wrong dtypes / inconsistent
+    (nodes, weights) shapes become oracle failures with the call as failing input; non-finite entries are replaced by 0 so that
+    the remaining checks of the case still run"""
+
+    def __init__(self, ctx, mod):
+        self._ctx, self._mod, self.last = ctx, mod, None
+
+    def __getattr__(self, name):
+        fn = getattr(self._mod, name)
+        if not callable(fn):
+            return fn
+
+        def call(*args, **kwargs):
+            inp = {"call": name, "args": [a if not callable(a) else "<function>" for a in args], "kwargs": {k: (v if not callable(v) else "<function>") for k, v in kwargs.items()}}
+            self.last = inp
+            out = fn(*args, **kwargs)
+            bad = _finite_ok(out)
+            if bad is None and isinstance(out, tuple) and len(out) == 2:
+                x, w = np.asarray(out[0]), np.asarray(out[1])
+                if w.ndim != 1 or (x.ndim >= 1 and x.shape[0] != w.shape[0] and x.size != w.size * max(1, x.shape[-1] if x.ndim > 1 else 1)):
+                    bad = ("bad_shape", "nodes of shape %s with weights of shape %s" % (x.shape, w.shape))
+            if bad:
+                self._ctx.fail(bad[0], "%s returns %s" % (name, bad[1]), inp)
+                if bad[0] == "bad_shape":
+                    raise BadOutput(bad[1])
+                out = tuple(np.nan_to_num(np.asarray(v, dtype=float), nan=0.0, posinf=0.0, neginf=0.0) for v in out) if isinstance(out, tuple) \
+                    else np.nan_to_num(np.asarray(out, dtype=float), nan=0.0, posinf=0.0, neginf=0.0)
+            return out
+        return call
+
 
 def run(ctx):
-    import quantecon.quad as Q
+    """never let a malformed implementation output crash the harness: it is reported as an oracle failure with the last call"""
+    guard = {}
+    try:
+        _run(ctx, guard)
+    except BadOutput:
+        pass
+    except Exception as e:
+        g = guard.get("Q")
+        import traceback as _tb
+        if g is not None and g.last is not None:
+            ctx.fail("harness_exception_after_call", "the oracle could not process the output of this call: %r (%s)" % (e, _tb.format_exc().strip().splitlines()[-3].strip()[:120]), g.last)
+        else:
+            raise
+
+
+def _run(ctx, guard):
+    import quantecon.quad as _Qreal
+    Q = Guard(ctx, _Qreal)
+    guard["Q"] = Q
     import scipy.linalg as la
     thorough = ctx.tier == "thorough"
     rng = ctx.rng
